@@ -251,7 +251,9 @@ def main(argv):
                 return simple(cs)
             cs2 = cs + [c]
             n = rng.choice([2, 3, 4])
-            body = [stmt(cs2, depth, True) for _ in range(rng.choice([1, 2, 3]))]
+            body = [stmt(cs2, depth, True) for _ in range(rng.choice([0, 1, 2, 3]))]
+            if rng.random() < 0.3 or not body:
+                body.append(ctrl())              # a TOP-LEVEL Break/Continue as the body's last statement (or its only one)
             if rng.random() < 0.5:
                 return ("for", st(c, I(0)), lt(ld(c), I(n)), st(c, add(ld(c), I(1))), ("seq",) + tuple(body))
             # While with the increment first, so that Continue cannot spin
@@ -271,6 +273,71 @@ def main(argv):
         app = rng.random() < 0.7
         consider(compile_case(pt, model, loop_ctrl(rng, version, app), version, app, rng.choice([None, False]), None), 2)
     ck.coverage["loop_control_programs"] = n_lc
+
+    # 6. arithmetic-edge expressions: nested n-ary / binary operators over values at the overflow and zero boundaries, grouped to the
+    #    right and to the left (a regrouped product or sum fails - or stops failing - on overflow), the same Python OBJECT used for two
+    #    operands (("shared", ...): the tree semantics evaluates it twice, effects included), itob/btoi round trips on short inputs
+    def arith_edge(rng, version, app):
+        E = [0, 1, 2, 3, 255, 2 ** 32, 2 ** 40, 2 ** 63, 2 ** 64 - 1]
+        leaf = lambda: rng.choice([I(rng.choice(E)), I(rng.choice(E)), ("op", "txn", ("Fee",), "u", ()), ("op", "btoi", (), "u", (("op", "txn", ("Note",), "b", ()),)) ])
+
+        def nest(op, depth):
+            if depth == 0:
+                return leaf()
+            l, r = nest(op, depth - 1) if rng.random() < 0.5 else leaf(), nest(op, depth - 1) if rng.random() < 0.7 else leaf()
+            if op in ("+", "*", "&&", "||"):
+                args = (l, r) if rng.random() < 0.6 else (l, leaf(), r)
+                return ("nary", op, "u", args)
+            return ("op", op, (), "u", (l, r))
+
+        kind = rng.choice(["nest", "nest", "shared", "roundtrip", "mixed"])
+        if kind == "nest":
+            e = nest(rng.choice(["*", "*", "+", "-", "/", "%"] + (["exp", "shl", "shr"] if version >= 4 else [])), rng.choice([1, 2, 3]))
+        elif kind == "mixed":
+            e = ("nary", "+", "u", (nest("*", 2), ("op", "-", (), "u", (nest("+", 1), leaf()))))
+        elif kind == "shared":
+            # an effectful value used twice through ONE object: a global counter that is bumped and read
+            key = ("op", "byte", ("0x6b",), "b", ())
+            bump = ("seq", ("op", "app_global_put", (), "n", (key, ("nary", "+", "u", (("op", "app_global_get", (), "a", (key,)), I(1))))), ("op", "app_global_get", (), "a", (key,)))
+            sh = ("shared", "s1", bump if (app and rng.random() < 0.7) else nest("+", 1))
+            e = ("op", rng.choice(["<", "==", "-", "/", "<="]), (), "u", (sh, sh)) if rng.random() < 0.6 else ("nary", rng.choice(["+", "*"]), "u", (sh, leaf(), sh))
+        else:
+            b = rng.choice([("op", "txn", ("Note",), "b", ()), ("op", "byte", ("0x05",), "b", ()), ("op", "byte", ("0x0102030405060708",), "b", ()), ("op", "byte", ("0x",), "b", ())])
+            e = ("op", "len", (), "u", (("op", "itob", (), "b", (("op", "btoi", (), "u", (b,)),)),)) if rng.random() < 0.5 else ("op", "btoi", (), "u", (("op", "itob", (), "b", (leaf(),)),))
+        if app and version >= 5 and rng.random() < 0.6:
+            return ("seq", ("op", "log", (), "n", (("op", "itob", (), "b", (e,)),)), ("exit", I(1)))
+        return ("return", ("op", "<", (), "u", (e, I(rng.choice(E)))))
+
+    n_ae = 500 if thorough else 90
+    for i in range(n_ae):
+        version = rng.choice([2, 4, 5, 6, 8, 10])
+        app = rng.random() < 0.7
+        consider(compile_case(pt, model, arith_edge(rng, version, app), version, app, None, None), 3)
+    ck.coverage["arithmetic_edge_programs"] = n_ae
+
+    # 7. routine tails: the last statement of the main routine is an If / Cond / nested combination in which SOME arms leave the program
+    #    (Approve/Reject/Return) and others do not - whether the compiler appends its implicit return, rejects the program, or lets a
+    #    path run off the end is decided by has_return of each construct
+    def tails():
+        pop = lambda n: ("op", "pop", (), "n", (I(n),))
+        c1, c2 = ("op", "txn", ("Fee",), "u", ()), ("op", "<", (), "u", (("op", "txn", ("Amount",), "u", ()), I(7)))
+        ex0, ex1, ret = ("exit", I(0)), ("exit", I(1)), ("return", I(1))
+        arms = [pop(1), ex0, ex1, ret, ("seq", pop(2), ex1)]
+        out = []
+        for a in arms:
+            for b in arms:
+                out.append(("seq", pop(9), ("if", c1, a, b)))
+                out.append(("seq", pop(9), ("cond", (c1, a), (I(1), b))))
+                out.append(("seq", pop(9), ("cond", (c1, a), (c2, b), (I(1), a))))
+                out.append(("seq", pop(9), ("if", c1, ("if", c2, a, b), b)))
+            out.append(("seq", pop(9), ("if", c1, a)))
+        return out
+
+    tl = tails()
+    for r in tl:
+        for v in ([2, 6, 9] if not thorough else [2, 4, 6, 8, 9, 10]):
+            consider(compile_case(pt, model, r, v, True), 2)
+    ck.coverage["routine_tail_shapes"] = len(tl)
 
     n_cd = 400 if thorough else 60
     for i in range(n_cd):
